@@ -218,8 +218,8 @@ def load_known():
 def main(prop_id, tier="quick", seed=0, replay=None):
     mod = load_prop(prop_id)
     t0 = time.monotonic()
-    evidence_path = ROOT / "evidence" / f"{prop_id}.json"
-    evidence_path.parent.mkdir(exist_ok=True)
+    evidence_path = Path(os.environ.get("VERIF_EVIDENCE_DIR", ROOT / "evidence")) / f"{prop_id}.json"
+    evidence_path.parent.mkdir(exist_ok=True, parents=True)
 
     if replay:
         ctx = ShardCtx(prop_id, tier, seed, 0, 1, 600.0, replaying=True)
@@ -356,7 +356,7 @@ def finish(mod, prop_id, tier, seed, results, problems, t0, evidence_path):
             continue
         new_violations.append(v)
 
-    replay_dir = ROOT / "replays" / prop_id
+    replay_dir = Path(os.environ.get("VERIF_REPLAY_DIR", ROOT / "replays")) / prop_id
     seen_keys = set()
     for v in new_violations:
         if v["key"] in seen_keys:
